@@ -76,6 +76,20 @@ class Exec:
     def hyps(self, st):
         return st.pc + self.cx.guards
 
+    def feasible(self, st, cond, timeout=300):
+        """False only if cond is refuted by the quantifier-free part of the path condition."""
+        from . import smt
+        flat = []
+        for h in st.pc + self.cx.guards:
+            smt.flatten(h, flat)
+        s = z3.Solver()
+        s.set(timeout=timeout)
+        for h in flat:
+            if not smt.has_quant(h):
+                s.add(h)
+        s.add(cond)
+        return s.check() != z3.unsat
+
     def oblige(self, label, kind, st, goal, node=None):
         return self.cx.oblige(label, kind, st, goal, getattr(node, "lineno", 0))
 
@@ -445,6 +459,8 @@ class Exec:
     def index(self, base, idx, st, node, spec):
         if isinstance(base, Opt):
             base = base.val if spec else self.need_not_none(base, st, node, "index")
+        if isinstance(idx, ObjV) and idx.cls == "__slice__":
+            return self.slice(base, idx.fields["lo"], idx.fields["hi"], st, node, spec)
         if isinstance(base, CArr):
             i = base.off + zint(idx)
             if not spec:
